@@ -1114,6 +1114,15 @@ func (h *host) driverOp(a *actor, st *Step, idx int) bool {
 			}
 		}
 		h.record(ev)
+	case "waitreserved":
+		// wait until the interop server holds a reservation (an invocation has really arrived)
+		dl := time.Now().Add(3 * time.Second)
+		for h.server.CurrentToken() == nil && time.Now().Before(dl) {
+			time.Sleep(100 * time.Microsecond)
+		}
+		if h.server.CurrentToken() == nil {
+			h.note("driver", "waitreserved-timeout")
+		}
 	case "quiet":
 		h.record(Event{Actor: "driver", Kind: "driver", Call: "quiet.begin", Step: idx, Tag: st.Tag})
 		time.Sleep(time.Duration(st.Ms) * time.Millisecond)
